@@ -60,6 +60,14 @@ def mut_lin(ev):
             return ev
 
 
+def mut_lin_stats(ev):
+    # a Stats reply that misses the count of an operation that had returned before it was asked
+    for e in ev:
+        if e.get("ev") == "ret" and e.get("op") == "stats" and e["stats"][2] > 0:
+            e["stats"][2] -= 1
+            return ev
+
+
 def replay(ctx, path):
     d = json.load(open(path))
     import tempfile
@@ -84,7 +92,8 @@ def run(ctx):
     ctx.rule = ("sequential: every history of exactly D operations (D=3 quick, 4 thorough) over {Put of each block, Get of each base, "
                 "Resize, Drop, Free, Overwrite of handed-back blocks, Touch} on each of LRU/FIFO/Random with capacity 1 and 2, plus "
                 "seeded random histories of 30-40 operations (3-6 blocks, 4 bases, capacity 1-4, optionally behind a StatsRecorder); "
-                "concurrent: 2-4 goroutines x 2-4 operations on one cache, call/return events; distinct = distinct histories")
+                "concurrent: 2-4 goroutines x 2-4 operations on one cache (half of them through a StatsRecorder, Stats being one of the operations), "
+                "call/return events; a paused operation under a StatsRecorder against Get/Put/Stats of a second goroutine; distinct = distinct histories")
     ctx.assumptions = ["the environment overwrites only blocks that Put handed back (the reader's usage rule in the property)",
                        "Resize with a negative capacity is not exercised",
                        "a call is a hang only if it exceeds the watchdog period and its goroutine is parked in a sync primitive of the cache package"]
@@ -111,5 +120,5 @@ def run(ctx):
         ctx.selftest("BlockCache", "CacheTrace", "CacheTrace_LRU.cfg", seqf["LRU"],
                      [("wrong-Len", mut_len), ("eviction-hidden", mut_evicted), ("stale-peek", mut_stale),
                       ("dropped-put-event", mut_drop_event)], max_scen=300)
-        ctx.selftest("BlockCache", "CacheLin", "CacheLin_LRU.cfg", concf["LRU"], [("wrong-Len-reply", mut_lin)],
+        ctx.selftest("BlockCache", "CacheLin", "CacheLin_LRU.cfg", concf["LRU"], [("wrong-Len-reply", mut_lin), ("stats-miss-a-put", mut_lin_stats)],
                      max_scen=40, branching=True)
